@@ -81,14 +81,15 @@ def gen_library(seed, idx):
         name = 'foo_plain%d' % fi
         hdr.add(apigen.render_function(name, ret, params))
         items.append(('plain', name, params, ret))
-    # 2. callback arrangements
+    # 2. callback arrangements (the well-known callback types also through typedef aliases of them)
+    hdr.add('typedef GAsyncReadyCallback FooReadyCallback;\ntypedef GDestroyNotify FooNotify;')
     for ci in range(rng.choice([2, 4, 6])):
         arr = rng.choice(['cb+data', 'x+cb+data', 'cb+data+destroy', 'cb+destroy', 'cb+other', 'cb1+data1+cb2+data2', 'cb1+cb2+data',
                           'async+data', 'cancellable+async+data', 'cb+data+x', 'data+cb', 'cb+destroy+data', 'x+cb+destroy+data'])
         dname = rng.choice(['user_data', 'data', 'func_data', 'cb_data'])
         P = {'cb': ('FooCallback', 'func'), 'cb1': ('FooCallback', 'func1'), 'cb2': ('FooCallback', 'func2'), 'data': ('gpointer', dname),
-             'data1': ('gpointer', 'func1_data'), 'data2': ('gpointer', 'user_data'), 'destroy': ('GDestroyNotify', 'notify'),
-             'x': ('gint', 'x'), 'other': ('gpointer', 'closure_arg'), 'async': ('GAsyncReadyCallback', 'callback'),
+             'data1': ('gpointer', 'func1_data'), 'data2': ('gpointer', 'user_data'), 'destroy': (['GDestroyNotify', 'GDestroyNotify', 'FooNotify'][ci % 3], 'notify'),
+             'x': ('gint', 'x'), 'other': ('gpointer', 'closure_arg'), 'async': (['GAsyncReadyCallback', 'FooReadyCallback'][ci % 2], 'callback'),
              'cancellable': ('GCancellable *', 'cancellable')}
         params = [P[t] for t in arr.split('+')]
         err = rng.random() < 0.3
